@@ -25,6 +25,7 @@
 #include "indent.h"
 
 #include <algorithm>
+#include <set>
 
 using std::string;
 
@@ -538,6 +539,14 @@ substitute_decl(CPPDeclaration::SubstDecl &subst,
     return top;
   }
 
+  // The initializer may refer back to this very instance (eg. the enumerator
+  // in "template<int N> struct F { enum { v = F<N-1>::v }; };"), which would
+  // make us recurse without end.
+  static std::set<const CPPInstance *> active;
+  if (!active.insert(this).second) {
+    return this;
+  }
+
   CPPInstance *rep = new CPPInstance(*this);
   CPPDeclaration *new_type =
     _type->substitute_decl(subst, current_scope, global_scope);
@@ -552,6 +561,7 @@ substitute_decl(CPPDeclaration::SubstDecl &subst,
       _initializer->substitute_decl(subst, current_scope, global_scope)
       ->as_expression();
   }
+  active.erase(this);
 
   if (rep->_type == _type &&
       rep->_initializer == _initializer) {
